@@ -111,7 +111,7 @@ def render_a(idx, kinds, err):
     elif err == "no_default":
         new = f"Unimock::new({mf}.each_call({always}).applies_default_impl())"
         expect = "Tr::f has not been set up with default implementation delegation."
-    call = f"<Unimock as Tr>::f(&u, {args})"
+    call = f"<Unimock as Tr>::f(&u{', ' + args if args else ''})"
     # the &mut arguments need fresh variables for the first call of more_than_once
     first_call = ""
     if pre == "FIRST":
@@ -120,10 +120,10 @@ def render_a(idx, kinds, err):
         setups2 = setups2.replace("&rr", "&qr")
         first_call = f"""
         {setups2}
-        let _ = <Unimock as Tr>::f(&u, {args2});"""
+        let _ = <Unimock as Tr>::f(&u{', ' + args2 if args2 else ''});"""
     return f"""    #[unimock(api=Mk)]
     pub trait Tr {{
-        fn f{g}(&self, {params}) -> u32;
+        fn f{g}(&self{", " + params if params else ""}) -> u32;
     }}
     pub fn run() -> Result<(), String> {{
         let u = {new}.no_verify_in_drop();{first_call}
@@ -289,7 +289,7 @@ def instances(tier):
 
     quick = tier == "quick"
     # (A)
-    lists = [[k] for k in KINDS]
+    lists = [[]] + [[k] for k in KINDS]
     lists += [list(t) for t in itertools.product(KINDS, repeat=2)] if not quick else [[a, b] for a, b in zip(KINDS, KINDS[1:] + KINDS[:1])]
     lists += [["u8", "mut", "str"], ["nodbg", "refref", "slice", "string"], ["gen_nodbg", "ref", "gen_dbg"], ["optref", "refnodbg", "u8", "mut"]]
     errs_full = ERRORS
